@@ -27,10 +27,12 @@ S = 100000  # LogScale
 OFF = 2_000_000_000
 RFF_DEN = 840  # lcm(1..8): data values after sky subtraction stay within -8..8
 LOG_TABLE = {e: int(round(S * math.log(2.0 * math.pi * 4.0 ** e))) for e in (-1, 0, 1)}
+LN2_HI = int(math.floor(S * math.log(2.0)))  # S ln 2 = LN2_HI + LN2_LO / 1000
+LN2_LO = int(round((S * math.log(2.0) - LN2_HI) * 1000))
 
 INVARIANTS = ["SlimModeEqualsNativeMode", "MaskedValuesNeverMatter", "ElementwiseDefinitions", "SkyShiftsDataOnly", "Homogeneity",
               "ReductionSelectsRegularisedParameters", "RegTermUnchangedByReduction", "DeterminantsPositive", "FigureOfMeritChoice",
-              "DatasetHistoryNeverMatters", "PredecessorDiffers"]
+              "DatasetHistoryNeverMatters", "PredecessorDiffers", "ScaleShiftMatchesTable", "SharedInstancesNeverMatter"]
 
 MC_CFG = """CONSTANTS
   FullShapes <- MCFullShapes
@@ -52,6 +54,11 @@ MC_CFG = """CONSTANTS
   HistShapes <- MCHistShapes
   HistKinds <- MCHistKinds
   Memoise = %s
+  ScaleSeq <- MCScaleSeq
+  ScaleRot = %d
+  Ln2Hi = %d
+  Ln2Lo = %d
+  RegByInstance = %s
 SPECIFICATION Spec
 """
 MC_CFG_TAIL = "".join(f"INVARIANT {x}\n" for x in INVARIANTS)
@@ -76,12 +83,17 @@ TRACE_CFG = """CONSTANTS
   HistShapes = {}
   HistKinds = {}
   Memoise = FALSE
+  ScaleSeq <- MCScaleSeq
+  ScaleRot = 0
+  Ln2Hi = %d
+  Ln2Lo = %d
+  RegByInstance = FALSE
 SPECIFICATION TraceSpec
 POSTCONDITION TraceAccepted
-""" % S
+""" % (S, LN2_HI, LN2_LO)
 
 LOG_DEF = "MCLogTable == (" + " @@ ".join(f"({e}) :> {v}" for e, v in sorted(LOG_TABLE.items())) + ")"
-TRACE_DEFS = LOG_DEF + "\nMCPatterns == << >>"
+TRACE_DEFS = LOG_DEF + "\nMCPatterns == << >>\nMCScaleSeq == << 0 >>"
 
 LAYOUTS = {"R2": [(2, True)], "R1N1": [(1, True), (1, False)], "N1R2": [(1, False), (2, True)], "N2": [(2, False)],
            "R1N1R1": [(1, True), (1, False), (1, True)], "R3": [(3, True)], "R2N1R1": [(2, True), (1, False), (1, True)],
@@ -117,6 +129,7 @@ def mc_defs(b, patterns):
         "MCRegKinds == " + _tla_set(f"[z |-> {z}, c |-> {c}]" for z, c in b["reg_kinds"]),
         "MCSPats == " + _tla_set(_tla_seq(str(x) for x in sp) for sp in b["reconstruction_patterns"]),
         "MCJunkFills == " + _tla_set(str(j) for j in b["junk_fills"]),
+        "MCScaleSeq == " + _tla_seq(str(k) for k in b["unit_exponents"]),
         "MCHistShapes == " + _tla_set(f"<<{h},{w}>>" for h, w in b["history_shapes"]),
         "MCHistKinds == " + _tla_set(f'"{k}"' for k in b["history_kinds"]),
     ])
@@ -210,7 +223,7 @@ def _native(h, w, u, slim_vals, junk_vals):
     return a.reshape(h, w)
 
 
-def make_parts(h, w, u, d, m_real, e, mode, junk):
+def make_parts(h, w, u, d, m_real, e, mode, junk, k=0):
     """Real arrays / dataset for one abstract dataset.  -> dict(mask, ds, model, use, arr) where arr(values, which) builds an
     array in the same storage format (which in data / noise / model selects the junk that fills masked cells)."""
     import autoarray as aa
@@ -219,9 +232,10 @@ def make_parts(h, w, u, d, m_real, e, mode, junk):
     msk[u] = False
     msk = msk.reshape(h, w)
     mask = aa.Mask2D(mask=msk, pixel_scales=1.0)
-    dv = np.asarray(d, dtype=float)
-    nv = 2.0 ** np.asarray(e, dtype=float)
-    mv = np.asarray(m_real, dtype=float)
+    unit = 2.0 ** k  # the dataset in units 2^k: data, model, noise (and the sky level, see _fit_on) times 2^k, exactly
+    dv = np.asarray(d, dtype=float) * unit
+    nv = 2.0 ** np.asarray(e, dtype=float) * unit
+    mv = np.asarray(m_real, dtype=float) * unit
     if mode == "slim":
         arr = lambda v, which: aa.Array2D(values=np.asarray(v, dtype=float), mask=mask)
         if junk == 0:
@@ -245,20 +259,20 @@ def make_parts(h, w, u, d, m_real, e, mode, junk):
         ds = aa.Imaging(data=arr(dv, "data"), noise_map=arr(nv, "noise"))
         model = arr(mv, "model")
         use = True
-    return {"mask": mask, "ds": ds, "model": model, "use": use, "arr": arr}
+    return {"mask": mask, "ds": ds, "model": model, "use": use, "arr": arr, "unit": unit}
 
 
 def _fit_on(ds, parts, sky, junk, inversion, **kw):
     import autoarray as aa
 
-    dm = aa.DatasetModel(background_sky_level=float(sky)) if sky != 0 or junk == 1 else None
+    dm = aa.DatasetModel(background_sky_level=float(sky) * parts["unit"]) if sky != 0 or junk == 1 else None
     return aa.m.MockFitImaging(dataset=ds, use_mask_in_fit=parts["use"], model_data=kw.pop("model", parts["model"]), inversion=inversion,
                                dataset_model=dm, **kw)
 
 
-def build_fit(h, w, u, d, m_real, e, sky, mode, junk, inversion):
-    """-> FitImaging subclass instance.  d, e integers per unmasked pixel; m_real floats per unmasked pixel."""
-    parts = make_parts(h, w, u, d, m_real, e, mode, junk)
+def build_fit(h, w, u, d, m_real, e, sky, mode, junk, inversion, k=0):
+    """-> FitImaging subclass instance.  d, e integers per unmasked pixel; m_real floats per unmasked pixel; units 2^k."""
+    parts = make_parts(h, w, u, d, m_real, e, mode, junk, k)
     return _fit_on(parts["ds"], parts, sky, junk, inversion)
 
 
@@ -301,7 +315,7 @@ def pred_dataset(kind, h, w, u, d, m, e):
             "m": [m[inner[c]] if c in inner else fill_m(c) for c in u0], "e": [e[inner[c]] if c in inner else fill_e(c) for c in u0]}
 
 
-def history_fits(kind, h, w, u, d, m_real, e, sky, mode, junk):
+def history_fits(kind, h, w, u, d, m_real, e, sky, mode, junk, k=0):
     """-> [(earlier fit, its own abstract dataset), (judged fit, None)]; the earlier fit must be READ before the judged fit is built
     where the history says so - the caller reads each fit as soon as it is yielded (generator)."""
     import copy
@@ -309,30 +323,30 @@ def history_fits(kind, h, w, u, d, m_real, e, sky, mode, junk):
 
     p = pred_dataset(kind, h, w, u, [int(x) for x in d], [int(round(x)) for x in m_real], list(e))
     if kind == "same-object-other-noise-map":
-        parts = make_parts(h, w, u, d, m_real, e, mode, junk)
-        yield _fit_on(parts["ds"], parts, sky, junk, None, noise_map=parts["arr"](2.0 ** np.asarray(p["e"], dtype=float), "noise")), p
+        parts = make_parts(h, w, u, d, m_real, e, mode, junk, k)
+        yield _fit_on(parts["ds"], parts, sky, junk, None, noise_map=parts["arr"](2.0 ** np.asarray(p["e"], dtype=float) * parts["unit"], "noise")), p
         yield _fit_on(parts["ds"], parts, sky, junk, None), None
     elif kind in ("copy-with-reassigned-arrays", "same-object-reassigned-arrays"):
-        parts = make_parts(h, w, u, p["d"], p["m"], p["e"], mode, junk)
+        parts = make_parts(h, w, u, p["d"], p["m"], p["e"], mode, junk, k)
         yield _fit_on(parts["ds"], parts, sky, junk, None), p
         ds = copy.copy(parts["ds"]) if kind.startswith("copy") else parts["ds"]
-        ds.data = parts["arr"](np.asarray(d, dtype=float), "data")
-        ds.noise_map = parts["arr"](2.0 ** np.asarray(e, dtype=float), "noise")
-        yield _fit_on(ds, parts, sky, junk, None, model=parts["arr"](np.asarray(m_real, dtype=float), "model")), None
+        ds.data = parts["arr"](np.asarray(d, dtype=float) * parts["unit"], "data")
+        ds.noise_map = parts["arr"](2.0 ** np.asarray(e, dtype=float) * parts["unit"], "noise")
+        yield _fit_on(ds, parts, sky, junk, None, model=parts["arr"](np.asarray(m_real, dtype=float) * parts["unit"], "model")), None
     elif kind == "derived-by-apply-mask":
-        full = make_parts(p["h"], p["w"], p["u"], p["d"], p["m"], p["e"], "slim", 0)
+        full = make_parts(p["h"], p["w"], p["u"], p["d"], p["m"], p["e"], "slim", 0, k)
         yield _fit_on(full["ds"], full, sky, 0, None), p
-        own = make_parts(h, w, u, d, m_real, e, "slim", 0)
+        own = make_parts(h, w, u, d, m_real, e, "slim", 0, k)
         yield _fit_on(full["ds"].apply_mask(mask=own["mask"]), own, sky, 0, None), None
     else:  # derived-by-trimming
         H2, W2 = p["h"], p["w"]
-        big = aa.Imaging(data=aa.Array2D.no_mask(values=_native(H2, W2, p["u"], np.asarray(p["d"], dtype=float), [7.0, -3.0]), pixel_scales=1.0),
-                         noise_map=aa.Array2D.no_mask(values=_native(H2, W2, p["u"], 2.0 ** np.asarray(p["e"], dtype=float), JUNK_POSITIVE_NOISE),
+        big = aa.Imaging(data=aa.Array2D.no_mask(values=_native(H2, W2, p["u"], np.asarray(p["d"], dtype=float) * 2.0 ** k, [7.0, -3.0]), pixel_scales=1.0),
+                         noise_map=aa.Array2D.no_mask(values=_native(H2, W2, p["u"], 2.0 ** np.asarray(p["e"], dtype=float) * 2.0 ** k, JUNK_POSITIVE_NOISE),
                                                       pixel_scales=1.0))
-        bp = make_parts(H2, W2, p["u"], p["d"], p["m"], p["e"], "slim", 0)
+        bp = make_parts(H2, W2, p["u"], p["d"], p["m"], p["e"], "slim", 0, k)
         ds0 = big.apply_mask(mask=bp["mask"])
         yield _fit_on(ds0, bp, sky, 0, None), p
-        own = make_parts(h, w, u, d, m_real, e, "slim", 0)
+        own = make_parts(h, w, u, d, m_real, e, "slim", 0, k)
         ds = ds0.trimmed_after_convolution_from(kernel_shape=(3, 3))
         yield _fit_on(ds, own, sky, 0, None), None
 
@@ -386,10 +400,16 @@ def mock_inversion(spec):
 
     sc, ss = float(spec["sc"]), float(spec["ss"])
     Hm = np.array(spec["H"], dtype=float).reshape(len(spec["s"]), len(spec["s"])) / sc
-    lin, off = [], 0
-    for o in spec["objs"]:
+    lin, off, instances = [], 0, {}
+    rid = spec.get("rid") or [j + 1 if o["reg"] else 0 for j, o in enumerate(spec["objs"])]
+    for o, ri in zip(spec["objs"], rid):
         p = o["p"]
-        reg = aa.m.MockRegularization(regularization_matrix=Hm[off:off + p, off:off + p].copy()) if o["reg"] else None
+        reg = None
+        if o["reg"]:
+            # objects with the same instance id share ONE regularization object (Fit.tla only shares identical blocks)
+            if ri not in instances:
+                instances[ri] = aa.m.MockRegularization(regularization_matrix=Hm[off:off + p, off:off + p].copy())
+            reg = instances[ri]
         lin.append(aa.m.MockLinearObj(parameters=p, regularization=reg))
         off += p
     return aa.m.MockInversion(linear_obj_list=lin, curvature_reg_matrix=np.array(spec["FH"], dtype=float) / sc,
@@ -402,15 +422,21 @@ def real_inversion(spec):
     import autoarray as aa
 
     ds, objs, skw = ic.build(spec["inst"])
+    shared = {}
     for lo, rg in zip(objs, spec["regs"]):
         if rg is None:
             lo.regularization = None
-        elif rg[0] == "zeroth":
+            continue
+        if spec.get("share") and tuple(rg) in shared:
+            lo.regularization = shared[tuple(rg)]  # the SAME regularization instance given to several linear objects
+            continue
+        if rg[0] == "zeroth":
             lo.regularization = aa.reg.Zeroth(coefficient=rg[1])
         elif rg[0] == "constant_zeroth":
             lo.regularization = aa.reg.ConstantZeroth(coefficient_neighbor=rg[1], coefficient_zeroth=rg[2])
         else:
             lo.regularization = aa.reg.Constant(coefficient=rg[1])
+        shared[tuple(rg)] = lo.regularization
     st = aa.SettingsInversion(use_w_tilde=spec["w_tilde"], use_positive_only_solver=spec["positive_only"], **skw)
     return aa.Inversion(dataset=ds, linear_obj_list=objs, settings=st), ds
 
@@ -422,6 +448,8 @@ def _pow2_floor(x):
 def read_inversion(inv, objs_abs, lat, sc, sx, ss_given):
     """alpha of what the inversion object reports"""
     out = {"objs": objs_abs, "lat": bool(lat), "sc": int(sc), "sx": bool(sx)}
+    ids = {}
+    out["rid"] = [0 if lo.regularization is None else ids.setdefault(id(lo.regularization), j + 1) for j, lo in enumerate(inv.linear_obj_list)]
     with np.errstate(all="ignore"):
         reg = inv.regularization_term
         ldc = inv.log_det_curvature_reg_matrix_term
@@ -487,6 +515,7 @@ def records_for(src):
     """src: {h,w,u,d,e,sky,m (ints) | mk:"real", inv:{kind:...}, modes:[[mode,junk],...]}"""
     h, w, u, d, e, sky = src["h"], src["w"], src["u"], src["d"], src["e"], src["sky"]
     n = len(u)
+    k = int(src.get("k", 0)) if src.get("mk", "int") == "int" else 0  # units 2^k (a real-valued model has its own units)
     inversion, objs_abs, lat, sc, sx, ss = _inv_for(src)
     invrec = None
     if src["inv"]["kind"] == "real":
@@ -519,14 +548,14 @@ def records_for(src):
         try:
             if hist != "none":
                 step = 0
-                for fit, pred in history_fits(hist, h, w, u, d, m_real, e, sky, mode, junk):
+                for fit, pred in history_fits(hist, h, w, u, d, m_real, e, sky, mode, junk, k):
                     # (the planner gives derived histories to slim, junk-free evaluations only)
                     raw = read_fit(fit, order if pred is None else "canonical")
                     evals.append((pred if pred is not None else own, mode, junk, order if pred is None else "canonical", 1, hist, step, raw,
                                   True, True, None))
                     step += 1
                 continue
-            fit = build_fit(h, w, u, d, m_real, e, sky, mode, junk, inversion)
+            fit = build_fit(h, w, u, d, m_real, e, sky, mode, junk, inversion, k)
             raw = read_fit(fit, order)
             stable = True
             if order == "twice":
@@ -538,7 +567,7 @@ def records_for(src):
             same = True
             if junk != 0:
                 # bit-for-bit against a clean evaluation of the same mode (not recorded again)
-                ref = read_fit(build_fit(h, w, u, d, m_real, e, sky, mode, 0, inversion), "canonical")
+                ref = read_fit(build_fit(h, w, u, d, m_real, e, sky, mode, 0, inversion, k), "canonical")
                 same = bool(same_as(raw, ref, u if mode == "native" else None))
             evals.append((own, mode, junk, order, 1, "none", 0, raw, stable, same, None))
             if pl.get("second"):
@@ -554,7 +583,7 @@ def records_for(src):
         has_inv = inversion is not None and hist == "none"
         rec = {"p": "C08", "api": "fit", "h": jd["h"], "w": jd["w"], "u": list(jd["u"]), "mode": mode, "junk": int(junk), "mk": mk,
                "d": list(jd["d"]), "e": list(jd["e"]), "sky": int(sky), "hasinv": has_inv, "raised": "", "same": bool(same), "order": order,
-               "nth": nth, "stable": bool(stable), "hist": hist, "step": int(step)}
+               "nth": nth, "stable": bool(stable), "hist": hist, "step": int(step), "scale": k}
         if mk == "int":
             rec["m"] = [int(x) for x in (jd["m"] if is_pred else src["m"])]
         if ex is not None:
@@ -566,11 +595,11 @@ def records_for(src):
             recs.append(rec)
             continue
         if mk == "int":
-            rec["res"] = ai(raw["residual_map"], 1)
+            rec["res"] = ai(raw["residual_map"], 2.0 ** (-k))  # exact: the only map that carries the unit
             rec["nres2"] = ai(raw["normalized_residual_map"], 2)
             rec["chi2map4"] = ai(raw["chi_squared_map"], 4)
             rec["sn2"] = ai(raw["signal_to_noise_map"], 2)
-            rff = {k: rec[k] for k in ("p", "h", "w", "u", "mode", "junk", "mk", "d", "e", "sky", "m", "raised", "order", "nth", "hist", "step")}
+            rff = {k: rec[k] for k in ("p", "h", "w", "u", "mode", "junk", "mk", "d", "e", "sky", "m", "raised", "order", "nth", "hist", "step", "scale")}
             rff.update({"api": "rff", "hasinv": False, "rff": ai(raw["residual_flux_fraction_map"], RFF_DEN, tol=1e-6)})
             c4 = ai([raw["chi_squared"]], 4)[0] if raw["chi_squared"] is not None else OFF
             rec["chi2q"] = c4
@@ -611,7 +640,7 @@ def _key(src, seed):
     import zlib
 
     txt = repr((src["h"], src["w"], tuple(src["u"]), tuple(src["d"]), tuple(src.get("m", ())), tuple(src["e"]), src["sky"], src["inv"].get("kind"),
-                str(src["inv"].get("FH")), str(src["inv"].get("s")), seed))
+                str(src["inv"].get("FH")), str(src["inv"].get("s")), str(src["inv"].get("rid")), seed))
     return zlib.crc32(txt.encode())
 
 
@@ -644,7 +673,7 @@ def make_plan(src, seed, hist=None, both_modes=False):
 
 def src_from_tlc(r, k, seed):
     src = {"h": r["h"], "w": r["w"], "u": r["u"], "d": r["d"], "m": r["m"], "e": r["e"], "sky": r["sky"], "mk": "int",
-           "inv": {"kind": "none"}, "origin": "tlc"}
+           "inv": {"kind": "none"}, "origin": "tlc", "k": int(r["scale"])}
     hist = "none"
     if r["hist"]:
         st = r["hist"][0]
@@ -657,7 +686,7 @@ def src_from_tlc(r, k, seed):
         kk = _key(src, 0) + len(str(v["FH"]))
         # gamma: matrices at scale sc (1 or 4), reconstruction at scale 2 (dyadic, exact)
         src["inv"] = {"kind": "mock", "objs": [{"p": o["p"], "reg": bool(o["reg"])} for o in v["objs"]], "FH": v["FH"], "H": v["H"],
-                      "s": v["s"], "sc": 4 if kk % 2 else 1, "ss": 2 if kk % 3 else 1}
+                      "s": v["s"], "rid": v["rid"], "sc": 4 if kk % 2 else 1, "ss": 2 if kk % 3 else 1}
     if hist != "none":
         # the history instance as enumerated by TLC: only the evaluation after the history (the plain evaluations of this
         # dataset come with its history-free twin)
@@ -669,6 +698,8 @@ def src_from_tlc(r, k, seed):
 
 
 HIST_SHAPES_SEEN = set()
+# units 2^k: from far below the absolute tolerances people write (1e-8 ~ 2^-27) to large counts
+UNIT_EXPONENTS = [0, -40, 30, -27, 11, -33, 1, -9, 22, -37]
 
 
 def random_fit_sources(rng, count, max_side, seed):
@@ -687,7 +718,7 @@ def random_fit_sources(rng, count, max_side, seed):
         n = len(u)
         src = {"h": h, "w": w, "u": u, "d": [int(x) for x in rng.integers(-2, 4, size=n)], "m": [int(x) for x in rng.integers(-2, 4, size=n)],
                "e": [int(x) for x in rng.integers(-1, 2, size=n)], "sky": int(rng.integers(-2, 3)) if n <= 36 else int(rng.integers(-1, 2)),
-               "mk": "int", "inv": {"kind": "none"}, "origin": "random"}
+               "mk": "int", "inv": {"kind": "none"}, "origin": "random", "k": UNIT_EXPONENTS[(k + seed) % len(UNIT_EXPONENTS)]}
         # larger frames: a history for every second dataset (the trimmed parent stays within the fixed-point range: <= 8x8 parents)
         hist = HIST_KINDS[(k // 2) % len(HIST_KINDS)] if k % 2 == 0 else "none"
         if hist == "derived-by-trimming" and (h > 6 or w > 6):
@@ -740,11 +771,21 @@ def lattice_inversion_source(rng, k):
     inst = {"H": H, "W": W, "u": [int(x) for x in u], "K": kernel, "sig_e": [int(x) for x in rng.integers(0, 2, size=n)],
             "d": [int(x) for x in rng.integers(0, 6, size=n)], "E": int(rng.integers(1, 3)), "objs": objs}
     sc = 4 * 4 ** (-ic.kernel_ke(kernel))
+    # one regularization INSTANCE shared by all regularised objects of the list (every second list with >= 2 of them)
+    reg_objs = [j for j, rg in enumerate(regs) if rg is not None]
+    share = len(reg_objs) >= 2 and (k // 9) % 2 == 0
+    if share:
+        r0 = regs[reg_objs[0]]
+        if any(objs[j]["type"] == "func" for j in reg_objs) or r0[0] != "zeroth":
+            r0 = ["zeroth", [0.5, 1.0, 2.0][k % 3]] if any(objs[j]["type"] == "func" for j in reg_objs) else r0
+        for j in reg_objs:
+            regs[j] = list(r0)
     real_model = bool(k % 3 == 0)
     src = {"h": H, "w": W, "u": inst["u"], "d": inst["d"], "e": inst["sig_e"], "sky": int([0, 0, 1, -2][k % 4]),
            "mk": "real" if real_model else "int",
-           "inv": {"kind": "real", "inst": inst, "regs": regs, "w_tilde": bool((k // 2) % 2), "positive_only": bool(k % 5 != 0), "lat": True, "sc": int(sc)},
-           "origin": "real-lattice"}
+           "inv": {"kind": "real", "inst": inst, "regs": regs, "w_tilde": bool((k // 2) % 2), "positive_only": bool(k % 5 != 0), "lat": True, "sc": int(sc),
+                   "share": bool(share)},
+           "origin": "real-lattice", "k": UNIT_EXPONENTS[(k // 2) % len(UNIT_EXPONENTS)]}
     if not real_model:
         src["m"] = [int(x) for x in rng.integers(-2, 4, size=n)]
     src["modes"] = [("slim", 0)] if real_model else [("slim", 0), ("native", [0, 1, 2][k % 3])]
@@ -774,7 +815,7 @@ def generic_inversion_source(rng, k):
 # validation
 # ------------------------------------------------------------------------------------------------------------
 def _describe(rec):
-    s = f"{'residual_flux_fraction_map of ' if rec['api'] == 'rff' else ''}fit[{rec['mode']}, junk={rec['junk']}, model={rec['mk']}, read order={rec.get('order')}, fit #{rec.get('nth')} on its dataset, history={rec.get('hist')}/{rec.get('step')}] on {rec['h']}x{rec['w']} u={rec['u']} d={rec['d']} e={rec['e']} sky={rec['sky']}"
+    s = f"{'residual_flux_fraction_map of ' if rec['api'] == 'rff' else ''}fit[units 2^{rec.get('scale')}, {rec['mode']}, junk={rec['junk']}, model={rec['mk']}, read order={rec.get('order')}, fit #{rec.get('nth')} on its dataset, history={rec.get('hist')}/{rec.get('step')}] on {rec['h']}x{rec['w']} u={rec['u']} d={rec['d']} e={rec['e']} sky={rec['sky']}"
     if rec.get("mk") == "int":
         s += f" m={rec.get('m')}"
     if rec["hasinv"]:
@@ -844,13 +885,15 @@ def run(ctx):
         "reg_kinds": [(1, 0), (4, 0), (4, 1)],
         "reconstruction_patterns": [[1, 2, 3, 1], [3, 0, 2, 5]],
         "junk_fills": [0, 1, 2],
+        "unit_exponents": UNIT_EXPONENTS,
         "history_shapes": [(2, 3)] if quick else [(2, 2), (2, 3), (1, 4)], "history_kinds": list(HIST_KINDS),
         "random_datasets": 250 if quick else 6000, "random_max_side": 6 if quick else 8,
         "real_lattice_inversions": 90 if quick else 1500, "real_generic_inversions": 16 if quick else 120,
     }
     ctx.bounds = b
     patterns = make_patterns(rng, b["patterns"], 12, b["values"], b["noise_exponents"])
-    cfg = lambda memo, tail=MC_CFG_TAIL: MC_CFG % (b["full_max_unmasked"], S, b["design_matrix_rows"], memo) + tail
+    cfg = lambda memo, tail=MC_CFG_TAIL, by_inst="FALSE": MC_CFG % (b["full_max_unmasked"], S, b["design_matrix_rows"], memo, ctx.seed % 1000,
+                                                                     LN2_HI, LN2_LO, by_inst) + tail
     res = ctx.tlc("Fit", cfg("FALSE"), defs=mc_defs(b, patterns), tag="MC_Fit", timeout=3000)
     insts = res.by_kind("inst")
     plain = [r for r in insts if not r["hist"]]
@@ -874,6 +917,13 @@ def run(ctx):
         if not any("DatasetHistoryNeverMatters" in x for x in bad.errors):
             raise core.MachineryError(f"Memoise=TRUE was expected to violate DatasetHistoryNeverMatters: {bad.errors[:2]}")
         ctx.note("Memoise=TRUE (noise normalization stored with the dataset object): TLC exhibits a history violating DatasetHistoryNeverMatters")
+        # the design that looks the block of the regularization matrix up by regularization instance: wrong when instances are shared
+        bi = dict(b, full_shapes=[], pattern_shapes=[], history_shapes=[], layouts=["R1N1R1"])
+        bad = ctx.tlc("Fit", cfg("FALSE", "INVARIANT SharedInstancesNeverMatter\n", "TRUE"), defs=mc_defs(bi, patterns), tag="MC_Fit_by_instance",
+                      timeout=600, allow_errors=True)
+        if not any("SharedInstancesNeverMatter" in x for x in bad.errors):
+            raise core.MachineryError(f"RegByInstance=TRUE was expected to violate SharedInstancesNeverMatter: {bad.errors[:2]}")
+        ctx.note("RegByInstance=TRUE (block looked up by regularization instance): TLC exhibits a shared instance violating SharedInstancesNeverMatter")
     ctx.exhaustive = True
     HIST_SHAPES_SEEN.clear()
     HIST_SHAPES_SEEN.update(tuple(x) for x in b["history_shapes"])
